@@ -3,7 +3,7 @@ import json
 import os
 
 from engine import rule, AnchorLost, VERIF
-from model import fn_of, trace, is_place, site, const_value
+from model import Super, strace, fn_of, trace, is_place, site, const_value
 import common
 
 
@@ -684,7 +684,35 @@ def r04_3(ctx):
                     if ra.origin == rb.origin and [s for s in ra.steps if s[0] == "field"] == [s for s in rb.steps if s[0] == "field"]:
                         excl = bnode not in b.reachable_from(tk[i][1]["target"])
                         ctx.ob(f"take_parent:{b.name}:exclusive:{i}-{j}", excl, site(b, bnode), "the two takes are on exclusive paths" if excl else "parent taken twice on one path")
-    ctx.ob("take_parent-sites", n_take >= 4, st, f"{n_take} take_parent call site(s)")
+    ctx.ob("take_parent-sites", n_take >= 1, st, f"{n_take} take_parent call site(s)")
+    # the same across helpers and closures: in the supergraph of every trait method of the transcoder's module, no
+    # path runs the taking accessor twice on the state reached from the method's own receiver (a helper that takes
+    # the parent, called a second time from an error-handling closure, would panic there)
+    module_file = taker.file
+    n_m = 0
+    for b in lib.bodies:
+        if b.file != module_file or not b.raw.get("impl_trait") or b.raw["def_kind"] != "AssocFn":
+            continue
+        sup = Super(lib, b, depth=3)
+        takes = []
+        for nn, nb, t in sup.calls():
+            if ((fn_of(t) or {}).get("resolved") or (fn_of(t) or {}).get("def")) != taker.id or not t["args"]:
+                continue
+            tr = strace(sup, nn, t["args"][0])
+            if tr.origin and tr.origin[0] == "arg" and not tr.origin_node[0]:
+                takes.append((nn, (tr.origin[1], tuple(st_[1] for st_ in tr.steps if st_[0] == "field"))))
+        if not takes:
+            continue
+        n_m += 1
+        bad = None
+        for n1, k1 in takes:
+            after = sup.reachable_from([m for lab, m in sup.edges(n1)])
+            for n2, k2 in takes:
+                if k1 == k2 and n2 in after:
+                    bad = (n1, n2)
+        ctx.ob(f"take-once-per-call:{b.raw.get('impl_self_ty', '')[:40]}::{b.name}", bad is None, sup.site(bad[1]) if bad else site(b),
+               "no path takes the parent of the method's own state twice" if bad is None else f"the parent serializer can be taken a second time (first at {sup.site(bad[0])}): the second take panics")
+    ctx.ob("taking-trait-methods", n_m >= 3, module_file, f"{n_m} trait method(s) that take a parent serializer examined")
     # constructions of wrapper objects and their single driver use
     n_c = 0
     for b in lib.bodies:
